@@ -60,7 +60,12 @@ def gen_case(rng):
         if wait != 1:
             chunks = chunks[:3]
             data = b"".join(chunks)
+        # data may keep flowing for longer than the tolerance between two separate interruptions (each interruption
+        # is judged by its own clock): now and then the source takes 1.5x the tolerance to produce a chunk
+        lull = wait == 1 and rng.random() < 0.35
         for i, c in enumerate(chunks):
+            if lull and i >= 1 and rng.random() < 0.6:
+                steps.append("sleep:%d" % int(1.5 * tol))
             if rng.random() < 0.3:
                 # the reader hands over the bytes and io.EOF in one Read call (legal for an io.Reader)
                 steps.append("de:" + c.hex())
